@@ -306,6 +306,20 @@ func prop(t *rapid.T) {
 			segs = append(segs, "..", rapid.SampledFrom([]string{"secret.txt", "sibling/leak.js", "rootx.css", "root/a.css"}).Draw(t, "target"))
 		}
 		tail := strings.Join(segs, "/")
+		if rapid.IntRange(0, 5).Draw(t, "encodedClimb") == 0 {
+			// a direct climb out of the root whose dot-dot elements and separators may be percent-encoded (they are
+			// decoded by net/http - or by nobody, under UseEncodedPath, unless the handler does it)
+			dd := rapid.SampledFrom([]string{"..", "%2e%2e", "%2E%2E", ".%2e", "%2e."}).Draw(t, "dotdot")
+			sep := rapid.SampledFrom([]string{"/", "/", "%2f", "%2F", "%5c"}).Draw(t, "sep")
+			start := rapid.SampledFrom([]string{"", "", "sub" + sep, "sub" + sep + "deep" + sep}).Draw(t, "climbFrom")
+			k := strings.Count(start, sep) + rapid.IntRange(1, 2).Draw(t, "levels")
+			if sep == "/" && start != "" {
+				k = strings.Count(start, "/") + rapid.IntRange(1, 2).Draw(t, "levels2")
+			}
+			target := rapid.SampledFrom([]string{"secret.txt", "sibling/leak.js", "rootx.css", "root/a.css", "root/b.js"}).Draw(t, "climbTarget")
+			tail = start + strings.Repeat(dd+sep, k) + strings.ReplaceAll(target, "/", sep)
+			ev.Class("request:climb-with-encoded-dot-dot-or-separator")
+		}
 		pfx := s.prefix
 		if rapid.IntRange(0, 9).Draw(t, "otherPrefix") == 0 {
 			pfx = rapid.SampledFrom([]string{"", "/assets/..", "/other"}).Draw(t, "pfx")
